@@ -22,7 +22,7 @@ def gen(rng, tier, ds):
             elif rng.random() < 0.04:                            # invalid member: incomplete tree
                 t = rng.choice([("A", [t, ("U",)]), ("O", [("U",), t]), ("N0",), ("A", [("N", ("O", [t, ("N0",)]))]), ("U",)])
             gb = [rng.choice(wc.COLS + ([b"nosuch"] if rng.random() < 0.03 else [])) for _ in range(rng.choice([0, 0, 1, 2, 3]))]
-            qid = rng.choice([0, 0, 0, 1, 2, 7, 7, -4, 2147483647])
+            qid = rng.choice([0, 0, 0, 1, 2, 7, 7, -4, 2147483647, -2147483648])
             qs.append(wc.enc_q(qid, t, gb))
         reqs.append(("b%d" % i, qs))
     return reqs
@@ -94,25 +94,44 @@ def grpc_sql(rep, scratch, rng, ds, addr, tier):
     lines_g.append("SQLOPEN hg grpc://%s -" % addr)
     lines_m.append("SQLOPEN hg %s -" % ds.did)
     stmts = []
+    directed = [(b'a = "1" & b = $1 ; c', 1), (b'b = $1 | a = "0"', 1), (b'^ a = "2" & (b = $2 | a = $1) ; b', 2), (b'a = "1" & b = "x" & c = $1', 1), (b'a = $1', 1)]
     for i in range(25 if tier == "quick" else 600):
         txt, t, gb = sqlcommon.query_text(rng, ds)
         m = sqlcommon.max_ph(t)
+        if i < 2 * len(directed):
+            # literal first, placeholder later: a prepared statement executed with different arguments
+            txt, m = directed[i % len(directed)]
+            vals = [("S", b"x"), ("S", b"y"), ("S", b""), ("S", b"0"), ("S", b"1"), ("S", b"2"), ("S", b"v3")]
+            argsets = [[rng.choice(vals) for _ in range(m)] for _ in range(3)]
+            mode = "prepared" if i % 2 == 0 else "direct"
+            for lines, h in ((lines_f, "hf"), (lines_g, "hg"), (lines_m, "hg")):
+                lines.append("SQLQ s%d %s %s %s %d" % (i, h, mode, core.enc_str(txt), len(argsets)))
+                for a in argsets:
+                    lines.append(sqlcommon.enc_args(a))
+            stmts.append((i, txt, argsets, mode))
+            continue
         args = [rng.choice([a for a in sqlcommon.ARG_POOL if a[0] == "I" or all(x < 128 for x in a[1])]) for _ in range(m - rng.choice([0, 0, 0, 1 if m else 0]))]   # exact or too few: grpcConn has no direct query path, so database/sql itself rejects surplus arguments there
         mode = rng.choice(["direct", "prepared"])
+        # a prepared statement is executed several times with different arguments
+        nexec = rng.choice([1, 2, 3]) if mode == "prepared" else 1
+        argsets = [args] + [[rng.choice([a for a in sqlcommon.ARG_POOL if a[0] == "I" or all(x < 128 for x in a[1])]) for _ in range(len(args))] for _ in range(nexec - 1)]
         for lines, h in ((lines_f, "hf"), (lines_g, "hg"), (lines_m, "hg")):
-            lines.append("SQLQ s%d %s %s %s 1" % (i, h, mode, core.enc_str(txt)))
-            lines.append(sqlcommon.enc_args(args))
-        stmts.append((i, txt, args, mode))
+            lines.append("SQLQ s%d %s %s %s %d" % (i, h, mode, core.enc_str(txt), len(argsets)))
+            for a in argsets:
+                lines.append(sqlcommon.enc_args(a))
+        stmts.append((i, txt, argsets, mode))
     fi, fm, rc1, e1 = sqlcommon.run_lines(scratch, lines_f, "c13f", model_side=False)
     gi, _, rc2, e2 = sqlcommon.run_lines(scratch, lines_g, "c13g", model_side=False)
     _, gm, _, _ = sqlcommon.run_lines(scratch, lines_m, "c13m", impl_side=False)
     bad = 0
-    for i, txt, args, mode in stmts:
-        k = ("SQL", "s%d.0" % i)
-        if not (fi.get(k) == gi.get(k) == gm.get(k)):
-            bad += 1
-            if bad <= 2:
-                rep.violation("correspondence", "sql driver: %s (%s, %d args): file: %s, grpc: %s, model %s" % (
-                    core.show_bytes(txt)[:100], mode, len(args), str(fi.get(k))[:120], str(gi.get(k))[:120], str(gm.get(k))[:120]),
-                    {"lines_grpc": lines_g[-2:], "file": fi.get(k), "grpc": gi.get(k), "model": gm.get(k)})
+    for i, txt, argsets, mode in stmts:
+        for j, args in enumerate(argsets):
+            k = ("SQL", "s%d.%d" % (i, j))
+            if not (fi.get(k) == gi.get(k) == gm.get(k)):
+                bad += 1
+                if bad <= 2:
+                    rep.violation("correspondence", "sql driver: %s (%s, execution #%d with %d args): file: %s, grpc: %s, model %s" % (
+                        core.show_bytes(txt)[:100], mode, j + 1, len(args), str(fi.get(k))[:120], str(gi.get(k))[:120], str(gm.get(k))[:120]),
+                        {"query_text": core.show_bytes(txt), "argsets": [[str(v[1]) for v in a] for a in argsets], "file": fi.get(k), "grpc": gi.get(k), "model": gm.get(k)})
+                break
     return bad
